@@ -1,5 +1,51 @@
-import RSVerif.Basic
-/- C19: line-protocol driver (stub) -/
+import RSVerif.Model.LogFlow
+import RSVerif.Generated.LogFlow
+import RSVerif.Spec.LogFlow
+/- line protocol for C19: what the *property* predicts for each case of go/harness/c19.go.
+
+   `<scenario> <level> <fakemode> <srcpw> <tgtpw>`  →  `clean`, and for the configuration echo additionally
+   the password fields that must show the mask: every field of `Configuration` that is one of the
+   generated `secretFields` (NOT the generated `maskedFields`: if a mask line disappears from
+   GetSafeOptions the prediction stays and the implementation's answer differs).
+
+   `offending` (used by the check to name sites when a theorem stops building): the output sites the
+   kernel-checked predicate `siteClean tainted taintedTypes` rejects, the unmasked secret fields, and
+   whether the closure certificate still holds — evaluated through the same definitions as the theorems. -/
 namespace RSVerif.Drive.C19
-def handle (_line : String) : String := "unimplemented"
+open RSVerif.LogFlow RSVerif.Generated.LogFlow
+
+def confFields : List Field := Spec.LogFlow.fieldsOfRow configurationType
+
+def mustBeMasked : List String :=
+  (confFields.filter (fun f => secretFields.contains f.loc)).map (·.name)
+
+def locName (l : Nat) : String :=
+  match taintedNames.find? (fun p => p.1 == l) with
+  | some p => p.2
+  | none => s!"loc#{l}"
+
+def badArgs (s : Site) : List String :=
+  (s.args.filter (fun a => !argClean tainted taintedTypes a)).map fun a =>
+    let why := if a.ty.reaches taintedTypes then "type reaches a secret field"
+      else "reads " ++ ", ".intercalate ((a.locs.filter (fun l => tainted.testBit l)).map locName)
+    s!"{a.src} [{why}]"
+
+def offending : List String :=
+  (sites.filter (fun s => !siteClean tainted taintedTypes s)).map fun s =>
+    s!"{s.loc} {s.callee}({"; ".intercalate (badArgs s)})"
+
+def unmasked : List String :=
+  (confFields.filter (fun f => secretFields.contains f.loc && !maskedFields.contains f.loc)).map (·.name)
+
+def handle (line : String) : String :=
+  match line.splitOn " " with
+  | ["offending"] =>
+    let parts := (if graph.closed tainted taintedTypes then [] else ["closure-certificate-fails"]) ++
+      (if unmasked.isEmpty then [] else ["unmasked-by-GetSafeOptions=" ++ ",".intercalate unmasked]) ++
+      offending.map (fun s => "site=" ++ s)
+    if parts.isEmpty then "none" else " | ".intercalate parts
+  | [scenario, _level, _fake, _spw, _tpw] =>
+    if scenario == "echo" then "clean masked=" ++ ",".intercalate mustBeMasked else "clean"
+  | _ => "badcase"
+
 end RSVerif.Drive.C19
